@@ -557,6 +557,19 @@ static const char *followup(int flags)
     if (ABT_task_free(&k) != ABT_SUCCESS)
         return "followup-task-free";
     int expect = 2;
+    {
+        /* a burst of simultaneously live ULTs: drains the local buckets and takes buckets from the global pools, so
+         * that a bucket which the failed call left short or mislabelled is used up to its end */
+        ABT_thread tb[24];
+        int nb;
+        for (nb = 0; nb < 24; nb++)
+            if (ABT_thread_create(p, wu_count, NULL, ABT_THREAD_ATTR_NULL, &tb[nb]) != ABT_SUCCESS)
+                return "followup-burst-create";
+        for (nb = 0; nb < 24; nb++)
+            if (ABT_thread_free(&tb[nb]) != ABT_SUCCESS)
+                return "followup-burst-free";
+        expect += 24;
+    }
     for (int i = 0; i < n_xs; i++) {
         ABT_xstream_state st;
         ABT_bool prim;
